@@ -891,6 +891,34 @@ def r9_constructor_collisions(rule, root=None):
         rule.skip("value constructors named like a shape", "none found", count=True)
 
 
+def r_reducer_arguments(rule, root=None):
+    """the variadic reducers (`union(a, b, c)`) convert each argument to one tree, exactly like the Rust call
+    `Union { input: vec![a.into(), b.into(), c.into()] }`: an array argument is *one* operand (its own union), not a
+    list to be spliced into the argument list"""
+    d = A.load(SHAPES, root)
+    defs = [m for m in A.find(d, "MacroRules") if m.get("name") == "reducer"] or [m for m in A.find(d, None, lambda q: q.get("k") in ("Macro", "MacroDef", "ItemMacro") and q.get("name") in ("macro_rules", "reducer"))]
+    text = None
+    for m in defs:
+        tk = m.get("tokens")
+        tt = A.tokens_str(tk).replace(" ", "") if tk else ""
+        if "build_reduce" in tt or "$v" in tt:
+            text = tt
+            break
+    if text is None:
+        src = open(__import__("os").path.join(root or A.REPO, SHAPES)).read()
+        i = src.find("macro_rules! reducer")
+        text = src[i:i + 2500].replace(" ", "").replace("\n", "") if i >= 0 else None
+    if not text:
+        rule.lost("macro_rules! reducer in fidget-rhai/src/shapes.rs")
+        return
+    each = "Tree::from_dynamic(&ctx,$v,None)?" in text
+    splice = "Vec<Tree>>::from_dynamic" in text or ".extend(" in text or "into_array" in text
+    if each and not splice:
+        rule.ok("reducer!: every argument becomes one tree through Tree::from_dynamic", file=SHAPES)
+    else:
+        rule.bad("reducer|arguments", "the variadic reducer %s: `f(a, [b, c])` must build f(a, union(b, c)) like the Rust API does, not f(a, b, c)" % ("splices array arguments into its operand list" if splice else "does not convert each argument with Tree::from_dynamic"), SHAPES)
+
+
 def run(ctx):
     r = ctx.rule("R1", "operators and functions are registered to their namesake, both operand orders, operands in source order; comparisons rejected", 69)
     ctx.guarded(r, r1_operator_tables)
@@ -910,3 +938,5 @@ def run(ctx):
     ctx.guarded(r, r8_conversions)
     r = ctx.rule("R9", "hand-written value constructors named like a shape keep a concretely typed parameter, so the all-Dynamic positional builder of the same arity cannot replace them", 2)
     ctx.guarded(r, r9_constructor_collisions)
+    r = ctx.rule("R10", "variadic reducers convert each argument to one tree (an array argument is one operand)", 1)
+    ctx.guarded(r, r_reducer_arguments)
